@@ -39,9 +39,9 @@ MUTANTS += [
       edits=[(MS, 'return uint32((fileSize + int64(chunkSize) - 1) / int64(chunkSize))', 'return uint32(fileSize/int64(chunkSize)) + 1')]),
  dict(id='C19-sidecar-clamp-back', props=['C19'], expect='R-GEOM/count-adjust/transfer.CreateSidecar',
       edits=[(SC, 'totalChunks := uint32((fileSize + int64(chunkSize) - 1) / int64(chunkSize))\n', 'totalChunks := uint32((fileSize + int64(chunkSize) - 1) / int64(chunkSize))\n\tif totalChunks == 0 {\n\t\ttotalChunks = 1\n\t}\n')]),
- dict(id='C19-drop-len-bound', props=['C19'], expect='R-TILE/write-bounds/transfer.RecvManifestMultiStream$4/len<=chunkSize',
+ dict(id='C19-drop-len-bound', props=['C19'], expect='R-TILE/write-bounds/transfer.RecvManifestMultiStream$5/len<=chunkSize',
       edits=[(MS, 'if state.chunkSize > 0 && chunkLen > state.chunkSize {', 'if state.chunkSize > 0 && chunkLen > state.chunkSize*2 {')]),
- dict(id='C19-drop-idx-bound', props=['C19'], expect='R-TILE/write-bounds/transfer.RecvManifestMultiStream$4/idx<totalChunks',
+ dict(id='C19-drop-idx-bound', props=['C19'], expect='R-TILE/write-bounds/transfer.RecvManifestMultiStream$5/idx<totalChunks',
       edits=[(MS, 'if state.totalChunks > 0 && chunkIndex >= state.totalChunks {', 'if state.totalChunks > 0 && chunkIndex > state.totalChunks {')]),
  dict(id='C19-tail-len-unguarded', props=['C19'], expect='R-TILE/narrow-rem/transfer.chunkSizeForIndex',
       edits=[(MS, 'if remaining < int64(chunkSize) {\n\t\treturn uint32(remaining)\n\t}\n\treturn chunkSize', 'if remaining < int64(chunkSize) || idx == 0 {\n\t\treturn uint32(remaining)\n\t}\n\treturn chunkSize')]),
@@ -110,19 +110,19 @@ MUTANTS += [
       edits=[(MAN, '\t\tif !d.IsDir() && !d.Type().IsRegular() {\n\t\t\treturn nil\n\t\t}\n\n\t\t// Get file info', '\t\tif !(d.IsDir() || d.Type().IsRegular()) {\n\t\t\treturn nil\n\t\t}\n\n\t\t// Get file info')]),
 ]
 MUTANTS += [
- dict(id='C05-mark-before-write', props=['C05', 'C04'], expect='R-WTM/mark/transfer.RecvManifestMultiStream$4',
+ dict(id='C05-mark-before-write', props=['C05', 'C04'], expect='R-WTM/mark/transfer.RecvManifestMultiStream$5',
       edits=[(MS, '\t\t\t\toffset := int64(chunkIndex) * int64(state.chunkSize)\n\t\t\t\tif err := writeAtWithTimeout(recvCtx, f, buf[:chunkLen], offset, state.item.RelPath); err != nil {\n\t\t\t\t\tbufPool.Put(buf)\n\t\t\t\t\tfinalizeFile(state, false, err.Error())\n\t\t\t\t\tdataErrCh <- err\n\t\t\t\t\treturn\n\t\t\t\t}\n\t\t\t\tdone, added := state.markChunkComplete(chunkIndex, chunkLen)\n',
               '\t\t\t\toffset := int64(chunkIndex) * int64(state.chunkSize)\n\t\t\t\tdone, added := state.markChunkComplete(chunkIndex, chunkLen)\n\t\t\t\tif err := writeAtWithTimeout(recvCtx, f, buf[:chunkLen], offset, state.item.RelPath); err != nil {\n\t\t\t\t\tbufPool.Put(buf)\n\t\t\t\t\tfinalizeFile(state, false, err.Error())\n\t\t\t\t\tdataErrCh <- err\n\t\t\t\t\treturn\n\t\t\t\t}\n')]),
- dict(id='C05-write-error-ignored', props=['C05'], expect='R-WTM/mark/transfer.RecvManifestMultiStream$4',
+ dict(id='C05-write-error-ignored', props=['C05'], expect='R-WTM/mark/transfer.RecvManifestMultiStream$5',
       edits=[(MS, '\t\t\t\tif err := writeAtWithTimeout(recvCtx, f, buf[:chunkLen], offset, state.item.RelPath); err != nil {\n\t\t\t\t\tbufPool.Put(buf)\n\t\t\t\t\tfinalizeFile(state, false, err.Error())\n\t\t\t\t\tdataErrCh <- err\n\t\t\t\t\treturn\n\t\t\t\t}\n',
               '\t\t\t\t_ = writeAtWithTimeout(recvCtx, f, buf[:chunkLen], offset, state.item.RelPath)\n')]),
  dict(id='C05-legacy-mark-on-error', props=['C05'], expect='R-WTM/mark/transfer.receiveFileChunksWindowed',
       edits=[(MP, '\t\t\t\t\tdefault:\n\t\t\t\t\t}\n\t\t\t\t\treturn\n\t\t\t\t}\n\n\t\t\t\tif resume != nil && resume.sidecar != nil {', '\t\t\t\t\tdefault:\n\t\t\t\t\t}\n\t\t\t\t}\n\n\t\t\t\tif resume != nil && resume.sidecar != nil {')]),
- dict(id='C05-mark-wrong-index', props=['C05'], expect='R-WTM/mark/transfer.RecvManifestMultiStream$4',
+ dict(id='C05-mark-wrong-index', props=['C05'], expect='R-WTM/mark/transfer.RecvManifestMultiStream$5',
       edits=[(MS, 'done, added := state.markChunkComplete(chunkIndex, chunkLen)', 'done, added := state.markChunkComplete(chunkLen, chunkLen)')]),
- dict(id='C05-crc-dropped', props=['C05', 'C02'], expect='R-CRC/write/transfer.RecvManifestMultiStream$4',
+ dict(id='C05-crc-dropped', props=['C05', 'C02'], expect='R-CRC/write/transfer.RecvManifestMultiStream$5',
       edits=[(MS, '\t\t\t\tif crc32.Checksum(buf[:chunkLen], crc32cTable) != chunkCRC {', '\t\t\t\tif crc32.Checksum(buf[:chunkLen], crc32cTable) != chunkCRC && chunkCRC != 0 {')]),
- dict(id='C05-crc-other-buffer', props=['C05'], expect='R-CRC/write/transfer.RecvManifestMultiStream$4',
+ dict(id='C05-crc-other-buffer', props=['C05'], expect='R-CRC/write/transfer.RecvManifestMultiStream$5',
       edits=[(MS, '\t\t\t\tif crc32.Checksum(buf[:chunkLen], crc32cTable) != chunkCRC {', '\t\t\t\tif crc32.Checksum(header[:chunkLen], crc32cTable) != chunkCRC {')]),
  dict(id='C05-legacy-crc-dropped', props=['C05'], expect='R-CRC/write/transfer.receiveFileChunksWindowed',
       edits=[(MP, '\t\t\tif crc32.Checksum(chunk.buf[:chunk.n], crc32cTable) != chunk.crc {\n\t\t\t\tbufPool.Put(chunk.buf)\n\t\t\t\treturn 0, ErrCRC32Mismatch\n\t\t\t}\n', '')]),
@@ -362,14 +362,14 @@ MUTANTS += [
       edits=[(CPR, '\tif relPathLen > maxRelPathLength {\n\t\treturn "", ErrRelPathTooLong\n\t}\n\trelPathBuf := make([]byte, relPathLen)\n\tif relPathLen > 0 {', '\trelPathBuf := make([]byte, relPathLen)\n\tif relPathLen > 0 {')]),
  dict(id='C15-errlen-widened', props=['C15'], expect='R-ALLOC/alloc/transfer.readFileDone',
       edits=[(CPR, '\terrLen, err := readUint16Control(s, "err length")', '\terrLen, err := readUint32Control(s, "err length")'), (CPR, '\terrLen := uint16(len(errMsg))\n\tif err := writeUint16Control(s, errLen, "err length"); err != nil {', '\terrLen := uint32(len(errMsg))\n\tif err := writeUint32Control(s, errLen, "err length"); err != nil {')]),
- dict(id='C15-undo-zero-chunk-guard', props=['C15'], expect='R-PANIC-GUARD/bufpool-new/transfer.RecvManifestMultiStream$4',
+ dict(id='C15-undo-zero-chunk-guard', props=['C15'], expect='R-PANIC-GUARD/bufpool-new/transfer.RecvManifestMultiStream$5',
       edits=[(MS, '\t\t\t\tif state.totalChunks == 0 || state.chunkSize == 0 {\n', '\t\t\t\tif state.totalChunks == 0 && state.chunkSize == 0 && chunkLen > 1 {\n')]),
  dict(id='C15-division-unguarded', props=['C15'], expect='R-PANIC-GUARD/division/transfer.RecvManifestMultiStream$handleFileBegin',
       edits=[(MS, '\t\ttotalChunks := uint32(0)\n\t\tif begin.ChunkSize > 0 {\n\t\t\ttotalChunks = uint32((int64(begin.FileSize) + int64(begin.ChunkSize) - 1) / int64(begin.ChunkSize))\n\t\t}\n\t\tstate := &recvFileStateMux{', '\t\ttotalChunks := uint32(0)\n\t\tif begin.FileSize > 0 {\n\t\t\ttotalChunks = uint32((int64(begin.FileSize) + int64(begin.ChunkSize) - 1) / int64(begin.ChunkSize))\n\t\t}\n\t\tstate := &recvFileStateMux{'),
              (MS, '\t\tif begin.ChunkSize == 0 && begin.FileSize > 0 {\n\t\t\treturn fmt.Errorf("invalid chunk size 0 for %s", begin.RelPath)\n\t\t}\n', '')]),
  dict(id='C15-wrong-assertion', props=['C15'], expect='R-PANIC-GUARD/assert/transfer.RecvManifestMultiStream$handleControl',
       edits=[(MS, '\t\tcase controlTypeResumeRequest:\n\t\t\treturn handleResumeRequest(ev.msg.(ResumeRequest))\n\t\tcase controlTypeFileEnd:\n\t\t\treturn handleFileEnd(ev.msg.(FileEnd))', '\t\tcase controlTypeResumeRequest, controlTypeFileEnd:\n\t\t\tif ev.typ == controlTypeResumeRequest {\n\t\t\t\treturn handleResumeRequest(ev.msg.(ResumeRequest))\n\t\t\t}\n\t\t\treturn handleFileEnd(ev.msg.(FileEnd))')]),
- dict(id='C15-chunklen-bound-dropped', props=['C15'], expect='R-PANIC-GUARD/slice-bound/transfer.RecvManifestMultiStream$4',
+ dict(id='C15-chunklen-bound-dropped', props=['C15'], expect='R-PANIC-GUARD/slice-bound/transfer.RecvManifestMultiStream$5',
       edits=[(MS, '\t\t\t\tif state.chunkSize > 0 && chunkLen > state.chunkSize {\n\t\t\t\t\terr := fmt.Errorf("chunk length %d exceeds chunk size %d for %s", chunkLen, state.chunkSize, state.item.RelPath)\n\t\t\t\t\tfinalizeFile(state, false, err.Error())\n\t\t\t\t\tdataErrCh <- err\n\t\t\t\t\treturn\n\t\t\t\t}\n', ''),
              (MS, '\t\t\t\tbuf := bufPool.Get()\n\t\t\t\tif int(chunkLen) > len(buf) {\n\t\t\t\t\tbufPool.Put(buf)\n\t\t\t\t\tdataErrCh <- fmt.Errorf("chunk length %d exceeds buffer size %d", chunkLen, len(buf))\n\t\t\t\t\treturn\n\t\t\t\t}\n\t\t\t\tdeltaFn := opts.ProgressDeltaFn', '\t\t\t\tbuf := bufPool.Get()\n\t\t\t\tdeltaFn := opts.ProgressDeltaFn')]),
  dict(id='C15-benign-early-bound', props=['C15'], expect='SILENT',
@@ -933,4 +933,102 @@ MUTANTS += [
       edits=[(SRV, '\tb.mu.Lock()\n\tdefer b.mu.Unlock()\n\tnow := time.Now()\n', '\tb.mu.Lock()\n\tdefer b.mu.Unlock()\n\tif b.tokens >= 2 {\n\t\tb.tokens--\n\t\treturn true\n\t}\n\tnow := time.Now()\n')]),
  dict(id='R5-extra-auth-in-accept-loop', props=['C09'], expect='R-ACCEPT-COMMIT/accept-not-blocked/',
       edits=[(SR, '\t\t\tgo func() {\n\t\t\t\tif err := authenticateTransport(acceptCtx, conn, r.joinCode, authRoleReceive); err != nil {', '\t\t\tfunc() {\n\t\t\t\tif err := authenticateTransport(acceptCtx, conn, r.joinCode, authRoleReceive); err != nil {')]),
+]
+
+# --- fourth triage list (F46-F57, DESIGN 8.11): undo of each repair, a variant, and benign variants that must stay silent ---
+_F46_NEW = '\t\t\t\t\t\tif verifiedChunk < totalChunks && forceSendFrom > verifiedChunk {\n\t\t\t\t\t\t\tforceSendFrom = verifiedChunk\n\t\t\t\t\t\t}\n'
+_F47_NEW = '\tif chunkSize == 0 || int64(fileSize) < 0 || !chunkCountFits(int64(fileSize), chunkSize) || totalChunks != chunkTotal(int64(fileSize), chunkSize) {\n\t\treturn nil, fmt.Errorf("sidecar inconsistent: %d chunks recorded for %d bytes in chunks of %d", totalChunks, fileSize, chunkSize)\n\t}\n'
+_F48_LOOKUP = '\t\tif cur, live := store.GetByJoinCode(joinCode); !live || cur.ID != sess.ID {\n\t\t\tsessionGone = true\n\t\t\treturn false\n\t\t}\n'
+_F49_HOST = '\t\t\tfor _, p := range current {\n\t\t\t\tif p.Role == "sender" {\n\t\t\t\t\tsecondHost = true\n\t\t\t\t\treturn false\n\t\t\t\t}\n\t\t\t}\n\t\t\treturn true\n'
+_F53_COND = '\t\t\t\t\t\t\tif senderHash != vHash && vChunk < forceSendFrom && bitmap.Get(int(vChunk)) && vChunk >= state.nextChunk {'
+_F53_PLAN = '\t\t\t\t\t\tstate.mu.Lock()\n\t\t\t\t\t\tstate.plan = plan\n\t\t\t\t\t\tstate.verifyPending = true\n\t\t\t\t\t\tstate.mu.Unlock()\n'
+_F54_LEN = '\t\t\tif want := chunkSizeForIndex(int64(fileSize), chunkSize, chunkIndex); chunkLen != want {\n\t\t\t\tsendReadErr(fmt.Errorf("chunk %d has length %d, want %d", chunkIndex, chunkLen, want))\n\t\t\t\treturn\n\t\t\t}\n'
+_F54_SEEN = '\t\t\t\tif seen.Get(int(chunkIndex)) {\n\t\t\t\t\tsendReadErr(fmt.Errorf("chunk %d received twice", chunkIndex))\n\t\t\t\t\treturn\n\t\t\t\t}\n'
+_F55_DEFER = '\t\tfor _, state := range states {\n\t\t\t_ = state.sidecar.Flush()\n\t\t\tglobalSidecarFlushRegistry.remove(state.sidecar)\n\t\t}\n\t}()\n\n\tvar statsMu sync.Mutex\n'
+_F57_BOUND = '\t\tif open >= dataStreams {\n\t\t\treturn fmt.Errorf("file begin for %s while %d files are open, as many as there are data streams", begin.RelPath, open)\n\t\t}\n'
+_F57_DEC = '\t\tstatsMu.Lock()\n\t\tif ok {\n\t\t\tcompletedCount++\n\t\t}\n\t\tif activeCount > 0 {\n\t\t\tactiveCount--\n\t\t}\n\t\tstatsMu.Unlock()\n\n\t\tselect {\n\t\tcase controlWriteCh <- controlMsg{done: &FileDone{'
+TQ = 'internal/transport/tuning_quic.go'
+WSF = 'internal/app/ws.go'
+MUTANTS += [
+ # F46
+ dict(id='F46-undo-unknown-hash-forces-chunk', props=['C06'], expect='R-UNKNOWN-FORCES/unknown-forces/',
+      edits=[(MS, _F46_NEW, '')]),
+ dict(id='F46-lowering-outside-unknown-branch-only-when-tail', props=['C06'], expect='R-UNKNOWN-FORCES/unknown-forces/',
+      edits=[(MS, _F46_NEW, '\t\t\t\t\t\tif verifiedChunk < totalChunks && forceSendFrom > verifiedChunk && resumeVerifyTail > 1 {\n\t\t\t\t\t\t\tforceSendFrom = verifiedChunk + 1\n\t\t\t\t\t\t}\n')]),
+ dict(id='F46-benign-lowering-lt-form', props=['C06', 'C17', 'C04'], expect='SILENT',
+      edits=[(MS, _F46_NEW, '\t\t\t\t\t\tif verifiedChunk < forceSendFrom && verifiedChunk < totalChunks {\n\t\t\t\t\t\t\tforceSendFrom = verifiedChunk\n\t\t\t\t\t\t}\n')]),
+ # F47
+ dict(id='F47-undo-sidecar-count-check', props=['C06', 'C19'], expect='R-SIDECAR-COUNT/sidecar-count/',
+      edits=[(SCF, _F47_NEW, '')]),
+ dict(id='F47-count-compared-with-bitmap-only', props=['C06', 'C19'], expect='R-SIDECAR-COUNT/sidecar-count/',
+      edits=[(SCF, _F47_NEW, '\tif chunkSize == 0 || int64(fileSize) < 0 || !chunkCountFits(int64(fileSize), chunkSize) || int(totalChunks) > len(bitmap)*8 {\n\t\treturn nil, fmt.Errorf("sidecar inconsistent: %d chunks recorded for %d bytes in chunks of %d", totalChunks, fileSize, chunkSize)\n\t}\n')]),
+ dict(id='F47-benign-count-check-split', props=['C06', 'C19', 'C01'], expect='SILENT',
+      edits=[(SCF, _F47_NEW, '\tif chunkSize == 0 || int64(fileSize) < 0 || !chunkCountFits(int64(fileSize), chunkSize) {\n\t\treturn nil, fmt.Errorf("sidecar inconsistent sizes")\n\t}\n\tif want := chunkTotal(int64(fileSize), chunkSize); want != totalChunks {\n\t\treturn nil, fmt.Errorf("sidecar inconsistent: %d chunks recorded, want %d", totalChunks, want)\n\t}\n')]),
+ # F48
+ dict(id='F48-undo-admit-rechecks-session', props=['C14', 'C11'], expect='R-ADMIT-LIVE/admit-live/',
+      edits=[(SRV, _F48_LOOKUP, '')]),
+ dict(id='F48-admit-ignores-session-identity', props=['C14'], expect='R-ADMIT-LIVE/admit-live/',
+      edits=[(SRV, _F48_LOOKUP, '\t\tif _, live := store.GetByJoinCode(joinCode); !live {\n\t\t\tsessionGone = true\n\t\t\treturn false\n\t\t}\n')]),
+ dict(id='F48-undo-expiry-order', props=['C14', 'C11'], expect='R-ADMIT-LIVE/delete-first/',
+      edits=[(SRV, '\t\t\t\t\tstore.Delete(sess.ID)\n\t\t\t\t\thub.CloseSession(sess.ID)\n', '\t\t\t\t\thub.CloseSession(sess.ID)\n\t\t\t\t\tstore.Delete(sess.ID)\n')]),
+ dict(id='F48-benign-admit-lookup-two-ifs', props=['C14', 'C11', 'C10'], expect='SILENT',
+      edits=[(SRV, _F48_LOOKUP, '\t\tcur, live := store.GetByJoinCode(joinCode)\n\t\tif !live {\n\t\t\tsessionGone = true\n\t\t\treturn false\n\t\t}\n\t\tif cur.ID != sess.ID {\n\t\t\tsessionGone = true\n\t\t\treturn false\n\t\t}\n')]),
+ # F49
+ dict(id='F49-undo-one-host', props=['C14'], expect='R-ONE-HOST/one-host/',
+      edits=[(SRV, _F49_HOST, '\t\t\treturn true\n')]),
+ dict(id='F49-second-host-logged-only', props=['C14'], expect='R-ONE-HOST/one-host/',
+      edits=[(SRV, _F49_HOST, _F49_HOST.replace('\t\t\t\t\tsecondHost = true\n\t\t\t\t\treturn false\n', '\t\t\t\t\tsecondHost = true\n'))]),
+ # F50
+ dict(id='F50-undo-min-streams', props=['C03'], expect='R-MIN-STREAMS/min-streams/',
+      edits=[(TQ, '\tminQuicMaxStreams = 2\n', '\tminQuicMaxStreams = 1\n')]),
+ dict(id='F50-first-open-unbounded-again', props=['C03'], expect='R-OPEN-BOUNDED/open-bounded/',
+      edits=[(MS, '\t\topenCtx, openCancel := context.WithTimeout(ctx, dataStreamOpenWait)\n\t\tstream, err := conn.OpenStream(openCtx)\n', '\t\topenCtx, openCancel := context.WithCancel(ctx)\n\t\tstream, err := conn.OpenStream(openCtx)\n')]),
+ # F51
+ dict(id='F51-undo-writer-validates', props=['C18'], expect='R-HEADER-SYMMETRIC/header-symmetric/',
+      edits=[(CP, '\tif err := validateManifest(m); err != nil {\n\t\treturn err\n\t}\n\tif err := writeFullControl(s, []byte(controlMagic), "control magic"); err != nil {', '\tif err := writeFullControl(s, []byte(controlMagic), "control magic"); err != nil {')]),
+ dict(id='F51-writer-validates-after-magic', props=['C18'], expect='R-HEADER-SYMMETRIC/header-symmetric/',
+      edits=[(CP, '\tif err := validateManifest(m); err != nil {\n\t\treturn err\n\t}\n\tif err := writeFullControl(s, []byte(controlMagic), "control magic"); err != nil {\n\t\treturn fmt.Errorf("failed to write control magic: %w", err)\n\t}\n', '\tif err := writeFullControl(s, []byte(controlMagic), "control magic"); err != nil {\n\t\treturn fmt.Errorf("failed to write control magic: %w", err)\n\t}\n\tif err := validateManifest(m); err != nil {\n\t\treturn err\n\t}\n')]),
+ # F52
+ dict(id='F52-undo-ws-url-normalised', props=['C16'], expect='R-URL-NORMALISE/url-normalise/app.buildWebSocketURL',
+      edits=[(WSF, '\tif !strings.HasPrefix(strings.ToLower(serverURL), "http") {\n\t\tserverURL = "http://" + serverURL\n\t}\n', '')]),
+ dict(id='F52-benign-ws-url-prefix-slice-form', props=['C16'], expect='SILENT',
+      edits=[(WSF, '\tif !strings.HasPrefix(strings.ToLower(serverURL), "http") {\n', '\tif len(serverURL) < 4 || !strings.EqualFold(serverURL[:4], "http") {\n')]),
+ # F53
+ dict(id='F53-undo-resend-needs-bit', props=['C17'], expect='R-RESEND-ONCE/resend-once/',
+      edits=[(MS, _F53_COND, _F53_COND.replace(' && bitmap.Get(int(vChunk))', ''))]),
+ dict(id='F53-undo-resend-not-handed-out', props=['C17'], expect='R-RESEND-ONCE/resend-once/',
+      edits=[(MS, _F53_COND, _F53_COND.replace(' && vChunk >= state.nextChunk', ''))]),
+ dict(id='F53-resend-handed-out-test-inverted', props=['C17', 'C06'], expect='R-RES',
+      edits=[(MS, _F53_COND, _F53_COND.replace('vChunk >= state.nextChunk', 'vChunk < state.nextChunk'))]),
+ dict(id='F53-undo-plan-before-verdict', props=['C17'], expect='R-PLAN-BEFORE-VERDICT/plan-before-verdict/',
+      edits=[(MS, _F53_PLAN, '\t\t\t\t\t\tstate.mu.Lock()\n\t\t\t\t\t\tstate.verifyPending = true\n\t\t\t\t\t\tstate.mu.Unlock()\n')]),
+ dict(id='F53-benign-resend-conjuncts-reordered', props=['C17', 'C06', 'C04'], expect='SILENT',
+      edits=[(MS, _F53_COND, '\t\t\t\t\t\t\tif senderHash != vHash && bitmap.Get(int(vChunk)) && state.nextChunk <= vChunk && forceSendFrom > vChunk {')]),
+ # F54
+ dict(id='F54-undo-legacy-exact-length', props=['C05', 'C19'], expect='R-LEGACY-TILE/legacy-tile/',
+      edits=[(MP, _F54_LEN, '')]),
+ dict(id='F54-undo-legacy-duplicate-index', props=['C19'], expect='R-LEGACY-TILE/legacy-tile/',
+      edits=[(MP, _F54_SEEN, '')]),
+ dict(id='F54-legacy-length-upper-bound-only', props=['C05', 'C19'], expect='R-LEGACY-TILE/legacy-tile/',
+      edits=[(MP, _F54_LEN, _F54_LEN.replace('chunkLen != want', 'chunkLen > want'))]),
+ # F55
+ dict(id='F55-undo-registry-cleanup', props=['C05'], expect='R-REGISTRY-BALANCED/registry-balanced/',
+      edits=[(MS, _F55_DEFER, _F55_DEFER.replace('\t\t\tglobalSidecarFlushRegistry.remove(state.sidecar)\n', ''))]),
+ dict(id='F55-benign-registry-cleanup-without-flush', props=['C05', 'C04'], expect='SILENT',
+      edits=[(MS, _F55_DEFER, _F55_DEFER.replace('\t\t\t_ = state.sidecar.Flush()\n', '\t\t\tif err := state.sidecar.Flush(); err != nil {\n\t\t\t\tcontinue\n\t\t\t}\n'))]),
+ # F56
+ dict(id='F56-undo-dials-detached', props=['C09'], expect='R-WINNER/losers-end/',
+      edits=[(ICE, '\tdialCtx, dialCancel := context.WithCancel(context.WithoutCancel(ctx))\n', '\tdialCtx, dialCancel := context.WithCancel(ctx)\n')]),
+ dict(id='F56-cancel-deferred-again', props=['C09'], expect='R-WINNER/losers-end/',
+      edits=[(ICE, '\tvar dials sync.WaitGroup\n\tdefer func() {\n\t\tgo func() {\n\t\t\tdials.Wait()\n\t\t\tdialCancel()\n\t\t}()\n\t}()\n', '\tvar dials sync.WaitGroup\n\tdefer dialCancel()\n')]),
+ # F57
+ dict(id='F57-undo-open-files-bound', props=['C15'], expect='R-OPEN-FILES-BOUNDED/open-files/',
+      edits=[(MS, _F57_BOUND, '\t\t_ = open\n')]),
+ dict(id='F57-open-files-bound-on-total-files', props=['C15'], expect='R-OPEN-FILES-BOUNDED/open-files/',
+      edits=[(MS, _F57_BOUND, _F57_BOUND.replace('if open >= dataStreams {', 'if open >= totalFiles {'))]),
+ dict(id='F57-decrement-after-ack', props=['C15'], expect='R-OPEN-FILES-BOUNDED/open-files/closed-before-ack',
+      edits=[(MS, _F57_DEC, _F57_DEC.replace('\t\tif activeCount > 0 {\n\t\t\tactiveCount--\n\t\t}\n', '')),
+             (MS, '\t\tstatsMu.Lock()\n\t\tremainingBytes -= state.item.Size\n\t\tactive := activeCount\n', '\t\tstatsMu.Lock()\n\t\tif activeCount > 0 {\n\t\t\tactiveCount--\n\t\t}\n\t\tremainingBytes -= state.item.Size\n\t\tactive := activeCount\n')]),
+ dict(id='F57-benign-open-files-bound-lt-form', props=['C15', 'C03'], expect='SILENT',
+      edits=[(MS, _F57_BOUND, '\t\tif !(open < dataStreams) {\n\t\t\treturn fmt.Errorf("file begin for %s while %d files are open, as many as there are data streams", begin.RelPath, open)\n\t\t}\n')]),
 ]
